@@ -5,6 +5,7 @@ import (
 	"encoding/json"
 	"fmt"
 	"html/template"
+	"sort"
 	"strings"
 	"testing"
 
@@ -46,30 +47,118 @@ type outer struct {
 	P  *inner
 }
 
-// bases: expression that yields the payload with its type, given the data
-// built by mkData. trusted says for which tags the base is available.
-var bases = map[string]struct {
+func (o outer) GetIn() inner                      { return o.In }
+func (o outer) Echo(s string) string              { return s }
+func (o outer) EchoAny(x interface{}) interface{} { return x }
+
+// Base is embedded in emb: its fields are reached as promoted fields.
+type Base struct {
+	F  string
+	H  template.HTML
+	Hr htmler
+}
+type emb struct {
+	Base
+	PS *string        // pointer fields: plush reads through them
+	PH *template.HTML //
+	I  interface{}    // holds the typed payload
+	SS []string
+	SI []interface{}
+	MS map[string]string
+}
+
+// further ways of being "explicitly typed as trusted HTML"
+type strHTMLer string // an HTMLer of string kind
+
+func (s strHTMLer) HTML() template.HTML { return template.HTML(s) }
+
+type phtmler struct{ s string } // HTMLer through a pointer receiver
+
+func (h *phtmler) HTML() template.HTML { return template.HTML(h.s) }
+
+type both struct{ s string } // an HTMLer that is also a fmt.Stringer: it still is an HTMLer
+
+func (b both) HTML() template.HTML { return template.HTML(b.s) }
+func (b both) String() string      { return "String() of an HTMLer must not be used: " + b.s }
+
+// named is a string type that is neither a Go string nor trusted HTML: whether it prints at all is open, but
+// if it does it may not print verbatim ("ONLY values explicitly typed as trusted HTML are emitted verbatim").
+type named string
+
+type iter struct {
+	xs []interface{}
+	i  int
+}
+
+func (it *iter) Next() interface{} {
+	if it.i >= len(it.xs) {
+		return nil
+	}
+	it.i++
+	return it.xs[it.i-1]
+}
+
+type baseDef struct {
 	expr  func(tag string) string
 	tags  string // which tags the base can carry: s=string h=html r=htmler
 	isLit bool
-}{
-	"var":               {func(t string) string { return "p" }, "shr", false},
-	"literal":           {nil, "s", true},
-	"struct field":      {func(t string) string { return "st." + fld(t) }, "shr", false},
-	"pointer field":     {func(t string) string { return "pst." + fld(t) }, "shr", false},
-	"nested field":      {func(t string) string { return "st.In." + fld(t) }, "shr", false},
-	"pointer in field":  {func(t string) string { return "st.P." + fld(t) }, "shr", false},
-	"slice of struct":   {func(t string) string { return "sts[1]." + fld(t) }, "shr", false},
-	"map[string]string": {func(t string) string { return `ms["k"]` }, "s", false},
-	"map[string]any":    {func(t string) string { return `mi["k"]` }, "shr", false},
-	"[]string elem":     {func(t string) string { return "ss[1]" }, "s", false},
-	"[]any elem":        {func(t string) string { return "si[1]" }, "shr", false},
-	"[2]string elem":    {func(t string) string { return "as[1]" }, "s", false},
-	"helper->string":    {func(t string) string { return "hs()" }, "s", false},
-	"helper->any":       {func(t string) string { return "hi()" }, "shr", false},
-	"helper->HTML":      {func(t string) string { return "hh()" }, "h", false},
-	"helper->HTMLer":    {func(t string) string { return "hr()" }, "r", false},
-	"method":            {func(t string) string { return "st.In.Get" + fld(t) + "()" }, "sh", false},
+	// weak: the statement does not say whether such a value prints at all (a pointer to a string, a named string
+	// type); asserted is only that it prints either nothing or exactly what a value of its tag must print.
+	weak bool
+}
+
+// bases: expression that yields the payload with its type, given the data
+// built by mkData. trusted says for which tags the base is available.
+var bases = map[string]baseDef{
+	"var":                {expr: func(t string) string { return "p" }, tags: "shr"},
+	"literal":            {tags: "s", isLit: true},
+	"backquoted literal": {tags: "s", isLit: true},
+	"struct field":       {expr: func(t string) string { return "st." + fld(t) }, tags: "shr"},
+	"pointer field":      {expr: func(t string) string { return "pst." + fld(t) }, tags: "shr"},
+	"nested field":       {expr: func(t string) string { return "st.In." + fld(t) }, tags: "shr"},
+	"pointer in field":   {expr: func(t string) string { return "st.P." + fld(t) }, tags: "shr"},
+	"slice of struct":    {expr: func(t string) string { return "sts[1]." + fld(t) }, tags: "shr"},
+	"map[string]string":  {expr: func(t string) string { return `ms["k"]` }, tags: "s"},
+	"map[string]any":     {expr: func(t string) string { return `mi["k"]` }, tags: "shr"},
+	"[]string elem":      {expr: func(t string) string { return "ss[1]" }, tags: "s"},
+	"[]any elem":         {expr: func(t string) string { return "si[1]" }, tags: "shr"},
+	"[2]string elem":     {expr: func(t string) string { return "as[1]" }, tags: "s"},
+	"helper->string":     {expr: func(t string) string { return "hs()" }, tags: "s"},
+	"helper->any":        {expr: func(t string) string { return "hi()" }, tags: "shr"},
+	"helper->HTML":       {expr: func(t string) string { return "hh()" }, tags: "h"},
+	"helper->HTMLer":     {expr: func(t string) string { return "hr()" }, tags: "r"},
+	"method":             {expr: func(t string) string { return "st.In.Get" + fld(t) + "()" }, tags: "sh"},
+	// promoted, pointer, interface and collection-typed FIELDS
+	"promoted field":          {expr: func(t string) string { return "e." + fld(t) }, tags: "shr"},
+	"embedded struct's field": {expr: func(t string) string { return "e.Base." + fld(t) }, tags: "shr"},
+	"pointer-typed field":     {expr: func(t string) string { return map[string]string{"string": "e.PS", "raw": "e.PS", "html": "e.PH"}[t] }, tags: "sh", weak: true},
+	"interface-typed field":   {expr: func(t string) string { return "e.I" }, tags: "shr"},
+	"[]string field elem":     {expr: func(t string) string { return "e.SS[1]" }, tags: "s"},
+	"[]any field elem":        {expr: func(t string) string { return "e.SI[1]" }, tags: "shr"},
+	"map field elem":          {expr: func(t string) string { return `e.MS["k"]` }, tags: "s"},
+	// collections whose ELEMENT TYPE is the trusted type, or a collection again
+	"map[string]HTML":          {expr: func(t string) string { return `mh["k"]` }, tags: "h"},
+	"[]HTML elem":              {expr: func(t string) string { return "hsl[1]" }, tags: "h"},
+	"map[string]HTMLer":        {expr: func(t string) string { return `mhr["k"]` }, tags: "r"},
+	"[]HTMLer elem":            {expr: func(t string) string { return "hrl[1]" }, tags: "r"},
+	"[][]string elem":          {expr: func(t string) string { return "sss[1][1]" }, tags: "s"},
+	"map[string][]string elem": {expr: func(t string) string { return `msl["k"][1]` }, tags: "s"},
+	"map of struct":            {expr: func(t string) string { return `mst["k"].` + fld(t) }, tags: "shr"},
+	// results of calls
+	"helper->(string, error)": {expr: func(t string) string { return "hse()" }, tags: "s"},
+	"helper->[]string elem":   {expr: func(t string) string { return "hss()[1]" }, tags: "s"},
+	"helper->struct, field":   {expr: func(t string) string { return "hst()." + fld(t) }, tags: "shr"},
+	"method->struct, field":   {expr: func(t string) string { return "st.GetIn()." + fld(t) }, tags: "shr"},
+	"method->struct, method":  {expr: func(t string) string { return "st.GetIn().Get" + fld(t) + "()" }, tags: "sh"},
+	// other spellings of "trusted HTML"
+	"HTMLer of string kind": {expr: func(t string) string { return "sh" }, tags: "r"},
+	"HTMLer by pointer":     {expr: func(t string) string { return "php" }, tags: "r"},
+	"HTMLer and Stringer":   {expr: func(t string) string { return "both" }, tags: "r"},
+	// values the statement does not oblige plush to print, but which may never print verbatim
+	"*string var":       {expr: func(t string) string { return map[string]string{"string": "ptrs", "raw": "ptrs", "html": "ptrh"}[t] }, tags: "sh", weak: true},
+	"[]*string elem":    {expr: func(t string) string { return "ips[1]" }, tags: "s", weak: true},
+	"helper->*string":   {expr: func(t string) string { return "hps()" }, tags: "s", weak: true},
+	"named string type": {expr: func(t string) string { return "nm" }, tags: "s", weak: true},
 }
 
 func (i inner) GetF() string        { return i.F }
@@ -86,41 +175,80 @@ func fld(tag string) string {
 }
 
 // wraps: expression -> expression, value and type preserved unless noted
-var wraps = map[string]struct {
+type wrapDef struct {
 	f        func(e string) string
-	strOnly  bool   // only defined for plain strings (concatenation)
+	strOnly  bool   // only defined for plain strings (concatenation, typed parameters)
 	pre, suf string // text added around the payload (escaped with it)
-}{
+}
+
+var wraps = map[string]wrapDef{
 	"empty+E": {func(e string) string { return `"" + ` + e }, true, "", ""},
 	"E+empty": {func(e string) string { return e + ` + ""` }, true, "", ""},
 	"q+E+r":   {func(e string) string { return `"<q>" + ` + e + ` + "&r"` }, true, "<q>", "&r"},
+	"E+1":     {func(e string) string { return e + ` + 1` }, true, "", "1"},
 	// a string concatenated with a TRUSTED value is still a string (C06: string + x concatenates the printed form of x)
-	"E+raw":      {func(e string) string { return e + ` + raw("<i>&")` }, true, "", "<i>&"},
-	"E+htmlvar":  {func(e string) string { return e + ` + trusted` }, true, "", "<em>T</em>"},
-	"lit+E+raw":  {func(e string) string { return `"a&" + ` + e + ` + raw("<u>")` }, true, "a&", "<u>"},
-	"[E][0]":     {func(e string) string { return "[" + e + "][0]" }, false, "", ""},
-	"[x,E][1]":   {func(e string) string { return `["x", ` + e + "][1]" }, false, "", ""},
-	`{k:E}["k"]`: {func(e string) string { return "{k: " + e + `}["k"]` }, false, "", ""},
-	"id(E)":      {func(e string) string { return "id(" + e + ")" }, false, "", ""},
-	"uf(E)":      {func(e string) string { return "uf(" + e + ")" }, false, "", ""},
-	"ids(E)":     {func(e string) string { return "ids(" + e + ")" }, true, "", ""}, // Go helper string -> string
-	"(E)":        {func(e string) string { return "(" + e + ")" }, false, "", ""},
-	"pick(E)":    {func(e string) string { return "pick(" + e + `, "other")` }, false, "", ""}, // user function with if/return
-	"let":        {nil, false, "", ""},                                                         // handled by the builder
+	"E+raw":               {func(e string) string { return e + ` + raw("<i>&")` }, true, "", "<i>&"},
+	"E+htmlvar":           {func(e string) string { return e + ` + trusted` }, true, "", "<em>T</em>"},
+	"lit+E+raw":           {func(e string) string { return `"a&" + ` + e + ` + raw("<u>")` }, true, "a&", "<u>"},
+	"[E][0]":              {func(e string) string { return "[" + e + "][0]" }, false, "", ""},
+	"[x,E][1]":            {func(e string) string { return `["x", ` + e + "][1]" }, false, "", ""},
+	"[[E]][0][0]":         {func(e string) string { return "[[" + e + "]][0][0]" }, false, "", ""},
+	`{k:E}["k"]`:          {func(e string) string { return "{k: " + e + `}["k"]` }, false, "", ""},
+	`{k:{j:E}}["k"]["j"]`: {func(e string) string { return "{k: {j: " + e + `}}["k"]["j"]` }, false, "", ""},
+	"id(E)":               {func(e string) string { return "id(" + e + ")" }, false, "", ""},
+	"uf(E)":               {func(e string) string { return "uf(" + e + ")" }, false, "", ""},
+	"ids(E)":              {func(e string) string { return "ids(" + e + ")" }, true, "", ""}, // Go helper string -> string
+	"(E)":                 {func(e string) string { return "(" + e + ")" }, false, "", ""},
+	"pick(E)":             {func(e string) string { return "pick(" + e + `, "other")` }, false, "", ""}, // user function with if/return
+	"pair(E)[0]":          {func(e string) string { return "pair(" + e + ")[0]" }, false, "", ""},       // user function returning an array
+	"opt({v:E})":          {func(e string) string { return "opt({v: " + e + "})" }, false, "", ""},      // through a helper's options map
+	"varii(1,E)":          {func(e string) string { return "varii(1, " + e + ")" }, false, "", ""},      // variadic ...interface{}
+	"vari(a,E)":           {func(e string) string { return `vari("a", ` + e + ")" }, true, "", ""},      // variadic ...string
+	"st.Echo(E)":          {func(e string) string { return "st.Echo(" + e + ")" }, true, "", ""},        // method with a string parameter
+	"st.EchoAny(E)":       {func(e string) string { return "st.EchoAny(" + e + ")" }, false, "", ""},
+	// handled by the builder: statements before the sink
+	"let":          {nil, false, "", ""},
+	"assign":       {nil, false, "", ""}, // let v = "" ; v = E
+	"index-assign": {nil, false, "", ""}, // let v = ["x", "y"] ; v[1] = E ; v[1]
+	"hash-assign":  {nil, false, "", ""}, // let v = {} ; v["k"] = E ; v["k"]
+	"closure":      {nil, false, "", ""}, // let v = fn() { return E } ; v()
 }
 
 var sinks = []string{
-	"top", "in if", "in else", "for loop var", "for over [E] with key", "array emitted whole", "array with neighbours", "fn body", "fn return",
+	"top", "in if", "in else", "in else if", "for loop var", "for over [E] with key", "array emitted whole", "array with neighbours", "fn body", "fn return",
 	"block helper", "block helper in if", "contentFor/Of", "contentOf data", "partial data", "partial data + layout", "nested partial data",
 	"if in for in fn", "let at top then in block", "return in if", "return in for",
 	// blocks whose whole body is exactly ONE output tag (no text next to it)
 	"bare in if", "bare in for", "bare fn body", "bare block helper", "bare contentFor/Of", "bare contentOf default block", "bare partial",
+	// a loop body cut short after the output tag: what it rendered so far travels with the continue / break
+	"before continue", "before break", "before continue in if",
+	// arrays built by the template and emitted whole
+	"array + E emitted whole", "nested arrays emitted whole", "fn returns array emitted whole", "for in for", "fn calls fn", "fn body result held in let",
+	// one block / stored block / partial rendered SEVERAL times in one execution, for trusted and untrusted values in turn
+	"block helper twice", "block helper arg in block context", "block helper per item, trust alternating",
+	"contentOf data, trust alternating", "partial data, trust alternating", "partial per item, trust alternating",
+	// ... and for the SAME text once trusted (raw(E)) and once not: nothing may be keyed by the printed form of a value
+	"same text trusted and not: loop", "same text trusted and not: fn body", "same text trusted and not: block helper", "same text trusted and not: contentOf data", "same text trusted and not: partial data",
+	// composition of the composition mechanisms
+	"helper Render of held", "partial in contentFor", "block helper in partial",
 }
 
-// sinks for context collections that are emitted without an expression route
+// sinks for context collections that are emitted without an expression route; the value says which tags apply
 var wholeSinks = []string{"[]string emitted whole", "[]any emitted whole", "for over []string", "for over []any", "for over [2]string", "for over map[string]string", "for over sts",
 	// ONE output tag emits trusted and untrusted values in turn (what it did for the value before says nothing about this one)
-	"for over mixed trust", "mixed trust emitted whole", "fn body called for trusted then string"}
+	"for over mixed trust", "mixed trust emitted whole", "fn body called for trusted then string",
+	// collections typed by a trusted element type, payload as a map KEY, iterator, collections from fields and helpers
+	"for over []HTML", "for over []HTMLer", "for over map[string]HTML", "for over map with payload key", "for over map[string]any with payload key",
+	"for over iterator", "[]string field emitted whole", "helper->[]string emitted whole", "helper->[]any emitted whole", "for over [][]string",
+	"for over hash literal with payload key", "for over []named string", "for over []*string"}
+
+var wholeTags = map[string]string{
+	"[]string emitted whole": "s", "[]any emitted whole": "shr", "for over []string": "s", "for over []any": "shr", "for over [2]string": "s",
+	"for over map[string]string": "s", "for over sts": "shr", "for over mixed trust": "s", "mixed trust emitted whole": "s", "fn body called for trusted then string": "s",
+	"for over []HTML": "h", "for over []HTMLer": "r", "for over map[string]HTML": "h", "for over map with payload key": "s", "for over map[string]any with payload key": "s",
+	"for over iterator": "shr", "[]string field emitted whole": "s", "helper->[]string emitted whole": "s", "helper->[]any emitted whole": "shr", "for over [][]string": "s",
+	"for over hash literal with payload key": "s", "for over []named string": "s", "for over []*string": "s",
+}
 
 func mkData(p, tag string, partials map[string]string) map[string]interface{} {
 	var v interface{} = p
@@ -131,6 +259,7 @@ func mkData(p, tag string, partials map[string]string) map[string]interface{} {
 	case "htmler":
 		v = htmler{p}
 	}
+	ps, px, ph := p, "x", template.HTML(p) // fresh variables: the data holds pointers to them
 	return map[string]interface{}{
 		"trusted": template.HTML("<em>T</em>"),
 		"p":       v, "st": outer{F: p, H: template.HTML(p), Hr: htmler{p}, In: in, P: &in}, "pst": &outer{F: p, H: template.HTML(p), Hr: htmler{p}, In: in, P: &in},
@@ -142,6 +271,45 @@ func mkData(p, tag string, partials map[string]string) map[string]interface{} {
 		"hh": func() template.HTML { return template.HTML(p) }, "hr": func() plush.HTMLer { return htmler{p} },
 		"id": func(x interface{}) interface{} { return x }, "ids": func(s string) string { return s },
 		"blk": func(h plush.HelperContext) (template.HTML, error) { s, err := h.Block(); return template.HTML(s), err },
+		// fields
+		"e": emb{Base: Base{F: p, H: template.HTML(p), Hr: htmler{p}}, PS: &ps, PH: &ph, I: v, SS: []string{"s0", p}, SI: []interface{}{"i0", v}, MS: map[string]string{"k": p}},
+		// typed collections
+		"mh": map[string]template.HTML{"k": template.HTML(p)}, "hsl": []template.HTML{"<i>", template.HTML(p)},
+		"mhr": map[string]htmler{"k": {p}}, "hrl": []htmler{{"<i>"}, {p}},
+		"sss": [][]string{{"a"}, {"b", p}}, "msl": map[string][]string{"k": {"a", p}},
+		"mst": map[string]outer{"k": {F: p, H: template.HTML(p), Hr: htmler{p}}},
+		"mk":  map[string]string{p: "v"}, "mik": map[string]interface{}{p: 1},
+		"it": &iter{xs: []interface{}{"i0", v}},
+		// other spellings of trusted, and values that are neither strings nor trusted
+		"sh": strHTMLer(p), "php": &phtmler{p}, "both": both{p},
+		"ptrs": &ps, "ptrh": &ph, "ips": []*string{&px, &ps}, "nm": named(p), "nms": []named{"n0", named(p)},
+		// helpers
+		"hse":   func() (string, error) { return p, nil },
+		"hss":   func() []string { return []string{"h0", p} },
+		"hsi":   func() []interface{} { return []interface{}{"<a>", v, template.HTML("<i>")} },
+		"hps":   func() *string { return &ps },
+		"hst":   func() outer { return outer{F: p, H: template.HTML(p), Hr: htmler{p}} },
+		"opt":   func(o map[string]interface{}) interface{} { return o["v"] },
+		"vari":  func(a ...string) string { return a[len(a)-1] },
+		"varii": func(a ...interface{}) interface{} { return a[len(a)-1] },
+		"blk2": func(h plush.HelperContext) (template.HTML, error) {
+			s1, err := h.Block()
+			if err != nil {
+				return "", err
+			}
+			s2, err := h.Block()
+			return template.HTML(s1 + "|" + s2), err
+		},
+		"with": func(x interface{}, h plush.HelperContext) (template.HTML, error) {
+			c := h.New()
+			c.Set("item", x)
+			s, err := h.BlockWith(c)
+			return template.HTML(s), err
+		},
+		"rend": func(src string, h plush.HelperContext) (template.HTML, error) {
+			s, err := h.Render(src)
+			return template.HTML(s), err
+		},
 		"partialFeeder": func(name string) (string, error) {
 			s, ok := partials[name]
 			if !ok {
@@ -152,10 +320,21 @@ func mkData(p, tag string, partials map[string]string) map[string]interface{} {
 	}
 }
 
-const prelude = `<% let uf = fn(x) { return x } %><% let pick = fn(x, y) { if (true) { return x } return y } %>`
+const prelude = `<% let uf = fn(x) { return x } %><% let pick = fn(x, y) { if (true) { return x } return y } %><% let pair = fn(x) { return [x, "y"] } %>`
 
-// build produces the template, the partial texts and the expected parts.
-func build(c Case) (src string, partials map[string]string, parts []match.Part, skip string) {
+func cat(pp ...[]match.Part) []match.Part {
+	var out []match.Part
+	for _, p := range pp {
+		out = append(out, p...)
+	}
+	return out
+}
+
+func lit(s string) []match.Part { return []match.Part{match.L(s)} }
+
+// build produces the template, the partial texts and the expected parts. With dropped set the expectation is that
+// of a payload that prints nothing at all (the second alternative of a weak base, see baseDef.weak).
+func build(c Case, dropped bool) (src string, partials map[string]string, parts []match.Part, skip string) {
 	p := string(c.Payload)
 	partials = map[string]string{}
 	esc := func(s string) match.Part {
@@ -167,53 +346,85 @@ func build(c Case) (src string, partials map[string]string, parts []match.Part, 
 	var sb strings.Builder
 	sb.WriteString(prelude)
 	// whole-collection sinks
-	for _, ws := range wholeSinks {
-		if c.Sink == ws {
-			if c.Tag == "raw" {
-				return "", nil, nil, "raw() is applied to an expression, not to a collection"
-			}
-			if c.Tag != "string" && !strings.Contains(ws, "any") && ws != "for over sts" {
-				return "", nil, nil, "typed sink needs a plain string"
-			}
-			if len(c.Wraps) > 0 || c.Base != "var" {
-				return "", nil, nil, "whole-collection sink has no route"
-			}
-			switch ws {
-			case "[]string emitted whole":
-				sb.WriteString("[<%= ss %>]")
-				return sb.String(), partials, []match.Part{match.L("[s0"), match.E(p), match.L("]")}, ""
-			case "[]any emitted whole":
-				sb.WriteString("[<%= si %>]")
-				return sb.String(), partials, []match.Part{match.L("[i0"), esc(p), match.L("]")}, ""
-			case "for over []string":
-				sb.WriteString("<%= for (x) in ss { %>[<%= x %>]<% } %>")
-				return sb.String(), partials, []match.Part{match.L("[s0]["), match.E(p), match.L("]")}, ""
-			case "for over []any":
-				sb.WriteString("<%= for (x) in si { %>[<%= x %>]<% } %>")
-				return sb.String(), partials, []match.Part{match.L("[i0]["), esc(p), match.L("]")}, ""
-			case "for over [2]string":
-				sb.WriteString("<%= for (x) in as { %>[<%= x %>]<% } %>")
-				return sb.String(), partials, []match.Part{match.L("[a0]["), match.E(p), match.L("]")}, ""
-			case "for over map[string]string":
-				sb.WriteString("<%= for (k, x) in ms { %>[<%= k %>=<%= x %>]<% } %>")
-				return sb.String(), partials, []match.Part{match.L("[k="), match.E(p), match.L("]")}, ""
-			case "for over mixed trust":
-				sb.WriteString("<%= for (x) in mix { %>[<%= x %>]<% } %>")
-				return sb.String(), partials, []match.Part{match.L("[<i>]["), match.E(p), match.L("][<b>]["), match.E(p), match.L("]["), match.R(p), match.L("]["), match.E(p), match.L("]")}, ""
-			case "mixed trust emitted whole":
-				sb.WriteString("[<%= mix %>]")
-				return sb.String(), partials, []match.Part{match.L("[<i>"), match.E(p), match.L("<b>"), match.E(p), match.R(p), match.E(p), match.L("]")}, ""
-			case "fn body called for trusted then string":
-				sb.WriteString("<% let show = fn(x) { %>[<%= x %>]<% } %><%= show(trusted) %><%= show(p) %><%= show(trusted) %><%= show(p) %>")
-				return sb.String(), partials, []match.Part{match.L("[<em>T</em>]["), match.E(p), match.L("][<em>T</em>]["), match.E(p), match.L("]")}, ""
-			default:
-				sb.WriteString("<%= for (o) in sts { %>[<%= o." + fld(c.Tag) + " %>]<% } %>")
-				if c.Tag == "string" {
-					return sb.String(), partials, []match.Part{match.L("[zero]["), match.E(p), match.L("]")}, ""
-				}
-				return sb.String(), partials, []match.Part{match.L("[]["), esc(p), match.L("]")}, ""
-			}
+	if tags, isWhole := wholeTags[c.Sink]; isWhole {
+		ws := c.Sink
+		if c.Tag == "raw" {
+			return "", nil, nil, "raw() is applied to an expression, not to a collection"
 		}
+		if !strings.Contains(tags, map[string]string{"string": "s", "html": "h", "htmler": "r"}[c.Tag]) {
+			return "", nil, nil, "the collection of this sink is typed for another tag"
+		}
+		if len(c.Wraps) > 0 || c.Base != "var" {
+			return "", nil, nil, "whole-collection sink has no route"
+		}
+		ret := func(tmpl string, parts ...match.Part) (string, map[string]string, []match.Part, string) {
+			sb.WriteString(tmpl)
+			return sb.String(), partials, parts, ""
+		}
+		switch ws {
+		case "[]string emitted whole":
+			return ret("[<%= ss %>]", match.L("[s0"), match.E(p), match.L("]"))
+		case "[]any emitted whole":
+			return ret("[<%= si %>]", match.L("[i0"), esc(p), match.L("]"))
+		case "for over []string":
+			return ret("<%= for (x) in ss { %>[<%= x %>]<% } %>", match.L("[s0]["), match.E(p), match.L("]"))
+		case "for over []any":
+			return ret("<%= for (x) in si { %>[<%= x %>]<% } %>", match.L("[i0]["), esc(p), match.L("]"))
+		case "for over [2]string":
+			return ret("<%= for (x) in as { %>[<%= x %>]<% } %>", match.L("[a0]["), match.E(p), match.L("]"))
+		case "for over map[string]string":
+			return ret("<%= for (k, x) in ms { %>[<%= k %>=<%= x %>]<% } %>", match.L("[k="), match.E(p), match.L("]"))
+		case "for over mixed trust":
+			return ret("<%= for (x) in mix { %>[<%= x %>]<% } %>", match.L("[<i>]["), match.E(p), match.L("][<b>]["), match.E(p), match.L("]["), match.R(p), match.L("]["), match.E(p), match.L("]"))
+		case "mixed trust emitted whole":
+			return ret("[<%= mix %>]", match.L("[<i>"), match.E(p), match.L("<b>"), match.E(p), match.R(p), match.E(p), match.L("]"))
+		case "fn body called for trusted then string":
+			return ret("<% let show = fn(x) { %>[<%= x %>]<% } %><%= show(trusted) %><%= show(p) %><%= show(trusted) %><%= show(p) %>",
+				match.L("[<em>T</em>]["), match.E(p), match.L("][<em>T</em>]["), match.E(p), match.L("]"))
+		case "for over sts":
+			tmpl := "<%= for (o) in sts { %>[<%= o." + fld(c.Tag) + " %>]<% } %>"
+			if c.Tag == "string" {
+				return ret(tmpl, match.L("[zero]["), match.E(p), match.L("]"))
+			}
+			return ret(tmpl, match.L("[]["), esc(p), match.L("]"))
+		case "for over []HTML":
+			return ret("<%= for (x) in hsl { %>[<%= x %>]<% } %>", match.L("[<i>]["), match.R(p), match.L("]"))
+		case "for over []HTMLer":
+			return ret("<%= for (x) in hrl { %>[<%= x %>]<% } %>", match.L("[<i>]["), match.R(p), match.L("]"))
+		case "for over map[string]HTML":
+			return ret("<%= for (k, x) in mh { %>[<%= k %>=<%= x %>]<% } %>", match.L("[k="), match.R(p), match.L("]"))
+		case "for over map with payload key":
+			return ret("<%= for (k, x) in mk { %>[<%= k %>=<%= x %>]<% } %>", match.L("["), match.E(p), match.L("=v]"))
+		case "for over map[string]any with payload key":
+			return ret("<%= for (k, x) in mik { %>[<%= k %>=<%= x %>]<% } %>", match.L("["), match.E(p), match.L("=1]"))
+		case "for over iterator":
+			return ret("<%= for (x) in it { %>[<%= x %>]<% } %>", match.L("[i0]["), esc(p), match.L("]"))
+		case "[]string field emitted whole":
+			return ret("[<%= e.SS %>]", match.L("[s0"), match.E(p), match.L("]"))
+		case "helper->[]string emitted whole":
+			return ret("[<%= hss() %>]", match.L("[h0"), match.E(p), match.L("]"))
+		case "helper->[]any emitted whole":
+			return ret("[<%= hsi() %>]", match.L("["), match.E("<a>"), esc(p), match.L("<i>]"))
+		case "for over [][]string":
+			return ret("<%= for (row) in sss { %><%= for (x) in row { %>[<%= x %>]<% } %><% } %>", match.L("[a][b]["), match.E(p), match.L("]"))
+		case "for over hash literal with payload key":
+			q, ok := model.QuoteString(p)
+			if !ok {
+				return "", nil, nil, "payload not expressible as a literal"
+			}
+			return ret("<%= for (k, x) in {"+q+": \"<v>\"} { %>[<%= k %>=<%= x %>]<% } %>", match.L("["), match.E(p), match.L("="), match.E("<v>"), match.L("]"))
+		case "for over []named string": // weak: both elements print as strings do, or neither prints
+			if dropped {
+				return ret("<%= for (x) in nms { %>[<%= x %>]<% } %>", match.L("[][]"))
+			}
+			return ret("<%= for (x) in nms { %>[<%= x %>]<% } %>", match.L("[n0]["), match.E(p), match.L("]"))
+		case "for over []*string": // weak
+			if dropped {
+				return ret("<%= for (x) in ips { %>[<%= x %>]<% } %>", match.L("[][]"))
+			}
+			return ret("<%= for (x) in ips { %>[<%= x %>]<% } %>", match.L("[x]["), match.E(p), match.L("]"))
+		}
+		return "", nil, nil, "unknown whole-collection sink"
 	}
 	b, ok := bases[c.Base]
 	if !ok {
@@ -223,14 +434,23 @@ func build(c Case) (src string, partials map[string]string, parts []match.Part, 
 	if !strings.Contains(b.tags, tagKey) {
 		return "", nil, nil, "base cannot carry this tag"
 	}
+	if b.weak && (len(c.Wraps) > 0 || c.Tag == "raw" || p == "") {
+		return "", nil, nil, "a value that need not print is emitted as it is, and not empty"
+	}
 	var e string
-	if b.isLit {
+	switch {
+	case c.Base == "backquoted literal":
+		if strings.ContainsAny(p, "`\x00") {
+			return "", nil, nil, "payload not expressible as a literal"
+		}
+		e = "`" + p + "`"
+	case b.isLit:
 		lit, ok := model.QuoteString(p)
 		if !ok || strings.ContainsAny(p, "\x00") {
 			return "", nil, nil, "payload not expressible as a literal"
 		}
 		e = lit
-	} else {
+	default:
 		e = b.expr(c.Tag)
 	}
 	pre, suf := "", ""
@@ -243,11 +463,28 @@ func build(c Case) (src string, partials map[string]string, parts []match.Part, 
 		if w.strOnly && (c.Tag == "html" || c.Tag == "htmler") {
 			return "", nil, nil, "concatenation is defined for plain strings only"
 		}
-		if wn == "let" {
+		if w.f == nil { // statements before the sink
 			nlet++
 			name := fmt.Sprintf("v%d", nlet)
-			sb.WriteString("<% let " + name + " = " + e + " %>")
-			e = name
+			switch wn {
+			case "let":
+				sb.WriteString("<% let " + name + " = " + e + " %>")
+				e = name
+			case "assign":
+				sb.WriteString("<% let " + name + " = \"\" %><% " + name + " = " + e + " %>")
+				e = name
+			case "index-assign":
+				sb.WriteString("<% let " + name + " = [\"x\", \"y\"] %><% " + name + "[1] = " + e + " %>")
+				e = name + "[1]"
+			case "hash-assign":
+				sb.WriteString("<% let " + name + " = {} %><% " + name + "[\"k\"] = " + e + " %>")
+				e = name + "[\"k\"]"
+			case "closure":
+				sb.WriteString("<% let " + name + " = fn() { return " + e + " } %>")
+				e = name + "()"
+			default:
+				return "", nil, nil, "unknown wrap"
+			}
 			continue
 		}
 		e = w.f(e)
@@ -256,9 +493,24 @@ func build(c Case) (src string, partials map[string]string, parts []match.Part, 
 	if c.Tag == "raw" {
 		e = "raw(" + e + ")"
 	}
-	payloadParts := func() []match.Part { return []match.Part{esc(pre + p + suf)} }
+	payloadParts := func() []match.Part {
+		if dropped {
+			return nil
+		}
+		return []match.Part{esc(pre + p + suf)}
+	}
+	P := payloadParts
+	T := "<em>T</em>" // what the context variable `trusted` prints
 	around := func(a string, mid []match.Part, z string) []match.Part {
 		return append(append([]match.Part{match.L(a)}, mid...), match.L(z))
+	}
+	if strings.HasPrefix(c.Sink, "nest:") {
+		tmpl, np, ok := nest(strings.Split(strings.TrimPrefix(c.Sink, "nest:"), ","), e, P, partials)
+		if !ok {
+			return "", nil, nil, "unknown sink"
+		}
+		sb.WriteString(tmpl)
+		return sb.String(), partials, np, ""
 	}
 	switch c.Sink {
 	case "top":
@@ -269,6 +521,9 @@ func build(c Case) (src string, partials map[string]string, parts []match.Part, 
 		parts = around("[", payloadParts(), "]")
 	case "in else":
 		sb.WriteString("<%= if (false) { %>no<% } else { %>[<%= " + e + " %>]<% } %>")
+		parts = around("[", payloadParts(), "]")
+	case "in else if":
+		sb.WriteString("<%= if (false) { %>no<% } else if (true) { %>[<%= " + e + " %>]<% } else { %>no<% } %>")
 		parts = around("[", payloadParts(), "]")
 	case "for loop var":
 		sb.WriteString("<%= for (x) in [" + e + "] { %>[<%= x %>]<% } %>")
@@ -352,23 +607,159 @@ func build(c Case) (src string, partials map[string]string, parts []match.Part, 
 		} else {
 			parts = around("[", payloadParts(), "]")
 		}
+	case "before continue":
+		sb.WriteString("<%= for (i) in [1, 2] { %>[<%= " + e + " %><% continue %>no]<% } %>")
+		parts = cat(lit("["), P(), lit("["), P())
+	case "before break":
+		sb.WriteString("<%= for (i) in [1, 2] { %>[<%= " + e + " %><% break %>no]<% } %>")
+		parts = cat(lit("["), P())
+	case "before continue in if":
+		sb.WriteString("<%= for (i) in [1, 2] { %>[<%= " + e + " %><% if (i == 1) { continue } %>]<% } %>")
+		parts = cat(lit("["), P(), lit("["), P(), lit("]"))
+	case "array + E emitted whole":
+		sb.WriteString("[<%= [\"<a>\"] + (" + e + ") %>]")
+		parts = cat(lit("["), []match.Part{match.E("<a>")}, P(), lit("]"))
+	case "nested arrays emitted whole":
+		sb.WriteString("[<%= [[" + e + ", [\"<a>\"]], trusted, [[[" + e + "]]]] %>]")
+		parts = cat(lit("["), P(), []match.Part{match.E("<a>")}, lit(T), P(), lit("]"))
+	case "fn returns array emitted whole":
+		sb.WriteString("<% let mk3 = fn(x) { return [\"<a>\", x, trusted] } %>[<%= mk3(" + e + ") %>]")
+		parts = cat(lit("["), []match.Part{match.E("<a>")}, P(), lit(T+"]"))
+	case "for in for":
+		sb.WriteString("<%= for (row) in [[" + e + ", \"<a>\"], [trusted]] { %><%= for (x) in row { %>[<%= x %>]<% } %><% } %>")
+		parts = cat(lit("["), P(), lit("]["), []match.Part{match.E("<a>")}, lit("]["+T+"]"))
+	case "fn calls fn":
+		sb.WriteString("<% let fa = fn(x) { return x } %><% let fb = fn(y) { %>(<%= fa(y) %>)<% } %>[<%= fb(" + e + ") %>]")
+		parts = cat(lit("[("), P(), lit(")]"))
+	case "fn body result held in let":
+		sb.WriteString("<% let show = fn(x) { %>(<%= x %>)<% } %><% let held = show(" + e + ") %>[<%= held %>|<%= held %>]")
+		parts = cat(lit("[("), P(), lit(")|("), P(), lit(")]"))
+	case "block helper twice":
+		sb.WriteString("<%= blk2() { %>[<%= " + e + " %>]<% } %>")
+		parts = cat(lit("["), P(), lit("]|["), P(), lit("]"))
+	case "block helper arg in block context":
+		sb.WriteString("<%= with(" + e + ") { %>[<%= item %>]<% } %>")
+		parts = around("[", payloadParts(), "]")
+	case "block helper per item, trust alternating":
+		sb.WriteString("<%= for (x) in [trusted, " + e + ", trusted, " + e + "] { %><%= blk() { %>[<%= x %>]<% } %><% } %>")
+		parts = cat(lit("["+T+"]["), P(), lit("]["+T+"]["), P(), lit("]"))
+	case "contentOf data, trust alternating":
+		sb.WriteString("<% contentFor(\"c\") { %>[<%= d %>]<% } %><%= contentOf(\"c\", {d: trusted}) %><%= contentOf(\"c\", {d: " + e + "}) %><%= contentOf(\"c\", {d: trusted}) %><%= contentOf(\"c\", {d: " + e + "}) %>")
+		parts = cat(lit("["+T+"]["), P(), lit("]["+T+"]["), P(), lit("]"))
+	case "partial data, trust alternating":
+		partials["part"] = "[<%= d %>]"
+		sb.WriteString("<%= partial(\"part\", {d: trusted}) %><%= partial(\"part\", {d: " + e + "}) %><%= partial(\"part\", {d: trusted}) %><%= partial(\"part\", {d: " + e + "}) %>")
+		parts = cat(lit("["+T+"]["), P(), lit("]["+T+"]["), P(), lit("]"))
+	case "partial per item, trust alternating":
+		partials["part"] = "[<%= d %>]"
+		sb.WriteString("<%= for (x) in [trusted, " + e + ", trusted] { %><%= partial(\"part\", {d: x}) %><% } %>")
+		parts = cat(lit("["+T+"]["), P(), lit("]["+T+"]"))
+	case "same text trusted and not: loop", "same text trusted and not: fn body", "same text trusted and not: block helper", "same text trusted and not: contentOf data", "same text trusted and not: partial data":
+		if c.Tag != "string" || b.weak {
+			return "", nil, nil, "raw(E) next to E needs a plain string"
+		}
+		re := "raw(" + e + ")"
+		switch strings.TrimPrefix(c.Sink, "same text trusted and not: ") {
+		case "loop":
+			sb.WriteString("<%= for (x) in [" + re + ", " + e + ", " + re + ", " + e + "] { %>[<%= x %>]<% } %>")
+		case "fn body":
+			sb.WriteString("<% let show = fn(x) { %>[<%= x %>]<% } %><%= show(" + re + ") %><%= show(" + e + ") %><%= show(" + re + ") %><%= show(" + e + ") %>")
+		case "block helper":
+			sb.WriteString("<%= for (x) in [" + re + ", " + e + ", " + re + ", " + e + "] { %><%= blk() { %>[<%= x %>]<% } %><% } %>")
+		case "contentOf data":
+			sb.WriteString("<% contentFor(\"c\") { %>[<%= d %>]<% } %><%= contentOf(\"c\", {d: " + re + "}) %><%= contentOf(\"c\", {d: " + e + "}) %><%= contentOf(\"c\", {d: " + re + "}) %><%= contentOf(\"c\", {d: " + e + "}) %>")
+		case "partial data":
+			partials["part"] = "[<%= d %>]"
+			sb.WriteString("<%= partial(\"part\", {d: " + re + "}) %><%= partial(\"part\", {d: " + e + "}) %><%= partial(\"part\", {d: " + re + "}) %><%= partial(\"part\", {d: " + e + "}) %>")
+		}
+		var rp []match.Part
+		if !dropped {
+			rp = []match.Part{match.R(pre + p + suf)}
+		}
+		parts = cat(lit("["), rp, lit("]["), P(), lit("]["), rp, lit("]["), P(), lit("]"))
+	case "helper Render of held":
+		sb.WriteString("<% let held = " + e + " %><%= rend(\"[<%= held %>]\") %>")
+		parts = around("[", payloadParts(), "]")
+	case "partial in contentFor":
+		partials["part"] = "[<%= d %>]"
+		sb.WriteString("<% contentFor(\"c\") { %><%= partial(\"part\", {d: " + e + "}) %><% } %>(<%= contentOf(\"c\") %>)")
+		parts = around("([", payloadParts(), "])")
+	case "block helper in partial":
+		partials["part"] = "<%= blk() { %>[<%= d %>]<% } %>"
+		sb.WriteString("(<%= partial(\"part\", {d: " + e + "}) %>)")
+		parts = around("([", payloadParts(), "])")
 	default:
 		return "", nil, nil, "unknown sink"
 	}
 	return sb.String(), partials, parts, ""
 }
 
+// Nests: the output tag sits inside up to four block constructs nested in any order. A path is a list of
+// constructs, outermost first, and a leaf; a construct with a trailing '+' has literal text next to its content
+// (so the enclosing block has several parts), without it the content is all the block holds.
+var nestElems = []string{"if", "else", "for", "fn", "blk", "cfo", "cod", "part"}
+var nestLeaves = []string{"bare", "boxed"}
+
+func nest(path []string, e string, P func() []match.Part, partials map[string]string) (string, []match.Part, bool) {
+	n := 0
+	var rec func(path []string) (string, []match.Part, bool)
+	rec = func(path []string) (string, []match.Part, bool) {
+		if len(path) == 0 {
+			return "", nil, false
+		}
+		if len(path) == 1 {
+			switch path[0] {
+			case "bare":
+				return "<%= " + e + " %>", P(), true
+			case "boxed":
+				return "[<%= " + e + " %>]", cat(lit("["), P(), lit("]")), true
+			}
+			return "", nil, false
+		}
+		n++
+		id := fmt.Sprint(n)
+		in, ip, ok := rec(path[1:])
+		if !ok {
+			return "", nil, false
+		}
+		el := path[0]
+		if strings.HasSuffix(el, "+") {
+			el = strings.TrimSuffix(el, "+")
+			in, ip = "("+in+")", cat(lit("("), ip, lit(")"))
+		}
+		switch el {
+		case "if":
+			return "<%= if (true) { %>" + in + "<% } %>", ip, true
+		case "else":
+			return "<%= if (false) { %>no<% } else { %>" + in + "<% } %>", ip, true
+		case "for":
+			return "<%= for (i" + id + ") in [1, 2] { %>" + in + "<% } %>", cat(ip, ip), true
+		case "fn":
+			return "<% let f" + id + " = fn() { %>" + in + "<% } %><%= f" + id + "() %>", ip, true
+		case "blk":
+			return "<%= blk() { %>" + in + "<% } %>", ip, true
+		case "cfo":
+			return "<% contentFor(\"c" + id + "\") { %>" + in + "<% } %><%= contentOf(\"c" + id + "\") %>", ip, true
+		case "cod":
+			return "<%= contentOf(\"undefined" + id + "\") { %>" + in + "<% } %>", ip, true
+		case "part":
+			partials["n"+id] = in
+			return "<%= partial(\"n" + id + "\") %>", ip, true
+		}
+		return "", nil, false
+	}
+	tmpl, parts, ok := rec(path)
+	return "{" + tmpl + "}", cat(lit("{"), parts, lit("}")), ok
+}
+
 func check(r *vk.Run, c Case) *vk.Fail {
 	defer r.Watch("route", c)()
-	src, partials, parts, skip := build(c)
+	src, partials, parts, skip := build(c, false)
 	if skip != "" {
 		r.Exclude("not-applicable: " + skip)
 		return nil
 	}
 	p := string(c.Payload)
-	if p == "" && c.Base == "var" {
-		// an empty string / nil is an unset name: keep the variable truthy-independent
-	}
 	data := mkData(p, c.Tag, partials)
 	res := vk.Safe(func() (string, error) { return plush.Render(src, plush.NewContextWith(data)) })
 	route := c.Base + " | " + strings.Join(c.Wraps, " > ") + " | " + c.Sink + " | " + c.Tag
@@ -376,7 +767,11 @@ func check(r *vk.Run, c Case) *vk.Fail {
 	if (gen.HasSpecial(p) || strings.Contains(p, "&")) && (len(c.Wraps) > 0 || c.Sink != "top" || c.Base != "var") {
 		nt = route + " | " + p
 	}
-	r.Count(nt, "sink/"+c.Sink)
+	if strings.HasPrefix(c.Sink, "nest:") {
+		r.Count(nt, fmt.Sprintf("sink/nest of depth %d", strings.Count(c.Sink, ",")))
+	} else {
+		r.Count(nt, "sink/"+c.Sink)
+	}
 	r.Class("tag/" + c.Tag)
 	r.Class("base/" + c.Base)
 	if nt != "" {
@@ -391,16 +786,107 @@ func check(r *vk.Run, c Case) *vk.Fail {
 		return fail("%s", res)
 	}
 	if m := match.Match(parts, res.Out); m != "" {
+		if weakRoute(c) {
+			// the value need not print: the other admissible output is the one without it
+			if _, _, alt, _ := build(c, true); match.Match(alt, res.Out) == "" {
+				r.Class("weak route: value not printed")
+				return nil
+			}
+			return fail("output %q is neither the value printed like a value of its tag (%s) nor the value left out", res.Out, m)
+		}
 		return fail("output %q: %s", res.Out, m)
 	}
 	return nil
 }
 
-const rule = "payload strings (20 fixed hostile payloads; random payloads over the five specials, entity and tag look-alikes, quotes, multi-byte, combining and invalid bytes) x type tag {plain string, template.HTML, HTMLer, raw()} x base (context variable, literal, struct / pointer / nested / pointer-in-struct field, slice of structs, map[string]string, map[string]interface{}, []string / []interface{} / [2]string element, helpers returning string / interface{} / HTML / HTMLer, method) x up to 4 wraps (\"\"+E, E+\"\", q+E+r, E+raw(..), E+trusted variable, lit+E+raw(..), [E][0], [x,E][1], {k:E}[\"k\"], Go helper, user function, user function with if/return, parentheses, let) x sink (top, if, else, loop variable, loop with key, array emitted whole, array with neighbours, function body, function return, block helper, block helper in if, contentFor+contentOf twice, contentOf data, partial data, partial data with layout, nested partial data, if in for in function, let then block, return inside an emitted if, return inside a loop body, and seven 'bare' sinks whose block body is exactly one output tag with no text next to it: if, for, function body, block helper, contentFor/contentOf, contentOf default block, partial) plus whole-collection sinks ([]string, []interface{} emitted whole; for over []string, []interface{}, [2]string, map[string]string, slice of structs). (E) every base x sink with no wrap, every single wrap x sink from a variable, for all fixed payloads and tags; (R) random compositions to depth 4. Oracle: entity-decoding matcher over the whole output: plain payloads only entity-encoded and decoding back to the payload, trusted payloads byte-identical, each exactly once. Non-trivial = payload contains a special and the route is not the bare variable at top level; distinct by (route, tag, payload)."
+func weakRoute(c Case) bool {
+	return bases[c.Base].weak && wholeTags[c.Sink] == "" || c.Sink == "for over []named string" || c.Sink == "for over []*string"
+}
+
+// ---- one template, several executions --------------------------------------------------------------------------
+//
+// What an execution did for a value says nothing about the next one: the SAME parsed template (and, with the
+// template cache on, the same parsed partials) is executed several times while the type and the text of the
+// payload change from execution to execution.
+type History struct {
+	Payload vk.Text  `json:"payload"`
+	Sink    string   `json:"sink"`
+	Tags    []string `json:"tags"`   // tag of the payload in execution i: string | html | htmler
+	Cached  bool     `json:"cached"` // plush.CacheEnabled with plush.Render, else one plush.Template executed repeatedly
+}
+
+func checkHistory(r *vk.Run, h History) *vk.Fail {
+	defer r.Watch("history", h)()
+	fail := func(f string, a ...interface{}) *vk.Fail {
+		return &vk.Fail{Kind: "history", Case: h, Msg: fmt.Sprintf("sink %q tags %v cached=%v payload %q: ", h.Sink, h.Tags, h.Cached, string(h.Payload)) + fmt.Sprintf(f, a...)}
+	}
+	if len(h.Tags) == 0 {
+		r.Exclude("not-applicable: empty history")
+		return nil
+	}
+	var tmpl *plush.Template
+	src0 := ""
+	if h.Cached {
+		old := plush.CacheEnabled
+		plush.CacheEnabled = true
+		defer func() { plush.CacheEnabled = old }()
+	}
+	for i, tag := range h.Tags {
+		p := string(h.Payload)
+		if i%2 == 1 {
+			p = "<x>&" + p // the text changes as well
+		}
+		c := Case{Payload: vk.Text(p), Tag: tag, Base: "var", Sink: h.Sink}
+		if weakRoute(c) {
+			r.Exclude("not-applicable: weak sinks are judged by the route check")
+			return nil
+		}
+		src, partials, parts, skip := build(c, false)
+		if skip != "" || tag == "raw" {
+			r.Exclude("not-applicable: " + skip)
+			return nil
+		}
+		if i == 0 {
+			src0 = src
+		} else if src != src0 {
+			r.Exclude("not-applicable: the template of this sink depends on the tag")
+			return nil
+		}
+		data := mkData(p, tag, partials)
+		var res vk.Res
+		if h.Cached {
+			res = vk.Safe(func() (string, error) { return plush.Render(src, plush.NewContextWith(data)) })
+		} else {
+			if tmpl == nil {
+				t, err := plush.NewTemplate(src)
+				if err != nil {
+					return fail("template %q: %v", src, err)
+				}
+				tmpl = t
+			}
+			res = vk.Safe(func() (string, error) { return tmpl.Exec(plush.NewContextWith(data)) })
+		}
+		nt := ""
+		if i > 0 && gen.HasSpecial(p) {
+			nt = fmt.Sprintf("%s | %v | %v | %d | %s", h.Sink, h.Tags, h.Cached, i, p)
+		}
+		r.Count(nt, "history/"+h.Sink)
+		if res.Panicked() || res.Err != nil {
+			return fail("execution %d (%s) of template %q: %s", i, tag, src, res)
+		}
+		if m := match.Match(parts, res.Out); m != "" {
+			return fail("execution %d (%s, payload %q) of template %q: output %q: %s", i, tag, p, src, res.Out, m)
+		}
+	}
+	return nil
+}
+
+const rule = "payload strings (22 fixed hostile payloads, among them quotes only and a 4.3 kB string with specials at the 64 / 256 / 4096 byte marks; random payloads over the five specials, entity and tag look-alikes, quotes, multi-byte, combining and invalid bytes) x type tag {plain string, template.HTML, HTMLer, raw()} x base (context variable, literal double- and back-quoted, struct / pointer / nested / pointer-in-struct / promoted / embedded / pointer-typed / interface-typed field, slice and map of structs, map[string]string, map[string]interface{}, []string / []interface{} / [2]string / [][]string / map[string][]string element, slice and map fields, collections whose element type is template.HTML or an HTMLer, helpers returning string / (string, error) / interface{} / HTML / HTMLer / []string / struct / *string, methods and fields of method results, an HTMLer of string kind / by pointer receiver / that is also a Stringer; and four 'weak' bases - *string variable, []*string element, helper returning *string, named string type, pointer-typed field - for which only 'printed like a value of its tag or not at all, never verbatim' is asserted) x up to 4 wraps (\"\"+E, E+\"\", q+E+r, E+1, E+raw(..), E+trusted variable, lit+E+raw(..), [E][0], [x,E][1], [[E]][0][0], {k:E}[\"k\"], {k:{j:E}}[\"k\"][\"j\"], Go helper, typed Go helper, helper options map, variadic helpers, methods with a parameter, user function, user function with if/return, user function returning an array, closure, parentheses, let, assignment, index assignment, hash-entry assignment) x sink (top, if, else, else-if, loop variable, loop with key, array emitted whole, array with neighbours, function body, function return, block helper, block helper in if, contentFor+contentOf twice, contentOf data, partial data, partial data with layout, nested partial data, if in for in function, let then block, return inside an emitted if, return inside a loop body; seven 'bare' sinks whose block body is exactly one output tag with no text next to it; loop bodies cut short by continue / break / continue inside an if AFTER the output tag; array + E, nested arrays and an array returned by a function emitted whole, loop in loop, function calling function, a function's rendered body held in a variable and emitted twice; one block executed twice by its helper, helper argument handed to the block through BlockWith, and one block helper / stored block / partial used several times in ONE execution for trusted and untrusted values in turn; helper calling Render, partial inside contentFor, block helper inside a partial) plus whole-collection sinks ([]string, []interface{} emitted whole; for over []string, []interface{}, [2]string, map[string]string, slice of structs, []template.HTML, []HTMLer, map[string]template.HTML, maps whose KEY is the payload, an Iterator, [][]string; collections from a field and from helpers emitted whole; mixed trusted / untrusted collections; weak: []named string, []*string). (E) every base x sink with no wrap, every single wrap x sink from a variable, for all fixed payloads and tags; (H) histories: one parsed template (plush.Template executed repeatedly, and plush.Render with the template cache on, which also re-uses parsed partials) executed 2-5 times while the payload's type and text change, every sink x 3 payloads x 5 tag sequences; (R) random compositions to depth 4. Oracle: entity-decoding matcher over the whole output: plain payloads only entity-encoded and decoding back to the payload, trusted payloads byte-identical, each exactly once. Non-trivial = payload contains a special and the route is not the bare variable at top level; distinct by (route, tag, payload); for histories an execution after the first whose payload contains a special."
 
 func setup(t *testing.T) *vk.Run {
 	r := vk.Start(t, "C01", rule,
-		"template.HTML + x, fmt.Stringer and named string types, and emitting a whole fixed-size array, map or struct are outside the statement",
+		"template.HTML + x, fmt.Stringer that is not an HTMLer, and emitting a whole fixed-size array, map, struct or a slice of another element type than string / interface{} are outside the statement",
+		"pointers to strings and named string types: the statement does not oblige plush to print them (today: a pointer FIELD is read through, a pointer value and a named string print nothing); asserted is that they print like a string or not at all - never verbatim, because ONLY trusted HTML is emitted verbatim",
 		"helpers written for the test return template.HTML of their block; a helper that returns its block as a plain string would be escaped again by design")
 	r.Replayer("route", func(raw json.RawMessage) *vk.Fail {
 		var c Case
@@ -409,37 +895,32 @@ func setup(t *testing.T) *vk.Run {
 		}
 		return check(r, c)
 	})
+	r.Replayer("history", func(raw json.RawMessage) *vk.Fail {
+		var h History
+		if f := vk.Decode(raw, &h); f != nil {
+			return f
+		}
+		return checkHistory(r, h)
+	})
 	return r
 }
 
 func TestReplay(t *testing.T) { setup(t).ReplayEnv() }
 
-func sortedKeys(m interface{}) []string {
-	var out []string
-	switch t := m.(type) {
-	case map[string]struct {
-		expr  func(tag string) string
-		tags  string
-		isLit bool
-	}:
-		for k := range t {
-			out = append(out, k)
-		}
-	case map[string]struct {
-		f        func(e string) string
-		strOnly  bool
-		pre, suf string
-	}:
-		for k := range t {
-			out = append(out, k)
-		}
-	}
-	for i := 1; i < len(out); i++ {
-		for j := i; j > 0 && out[j-1] > out[j]; j-- {
-			out[j-1], out[j] = out[j], out[j-1]
-		}
-	}
+func sortedNames(n int, each func(add func(string))) []string {
+	out := make([]string, 0, n)
+	each(func(s string) { out = append(out, s) })
+	sort.Strings(out)
 	return out
+}
+
+// longPayload has a special character at, just before and just after the 64, 256 and 4096 byte marks, and at both ends.
+func longPayload() string {
+	b := []byte(strings.Repeat("a", 4300))
+	for i, at := range []int{0, 63, 64, 65, 255, 256, 257, 4095, 4096, 4097, 4299} {
+		b[at] = "<>&'\""[i%5]
+	}
+	return string(b)
 }
 
 func TestProp(t *testing.T) {
@@ -447,11 +928,20 @@ func TestProp(t *testing.T) {
 	defer r.Finish()
 	r.ReplayCommitted()
 
-	baseNames, wrapNames := sortedKeys(bases), sortedKeys(wraps)
+	baseNames := sortedNames(len(bases), func(add func(string)) {
+		for k := range bases {
+			add(k)
+		}
+	})
+	wrapNames := sortedNames(len(wraps), func(add func(string)) {
+		for k := range wraps {
+			add(k)
+		}
+	})
 	tags := []string{"string", "html", "htmler", "raw"}
-	payloads := gen.Fixed
+	payloads := append(append([]string{}, gen.Fixed...), "it's \"q\"", longPayload())
 	if r.Quick() {
-		payloads = []string{"", "plain", "<b>&'\"</b>", "&amp;", "&lt;b&gt;", "<%= x %>", "é漢é", "\xff<\xc3", "<script>alert('x & \"y\"')</script>", "a\nb\r\nc"}
+		payloads = []string{"", "plain", "<b>&'\"</b>", "&amp;", "&lt;b&gt;", "<%= x %>", "é漢é", "\xff<\xc3", "<script>alert('x & \"y\"')</script>", "a\nb\r\nc", "it's \"q\"", longPayload()}
 	}
 	var cases []Case
 	for _, p := range payloads {
@@ -469,8 +959,52 @@ func TestProp(t *testing.T) {
 			}
 		}
 	}
-	r.Subspace(fmt.Sprintf("%d payloads x 4 tags x (17 bases + 15 single wraps) x 27 sinks + 7 whole-collection sinks (inapplicable combinations counted under excluded)", len(payloads)), int64(len(cases)), true)
+	r.Subspace(fmt.Sprintf("%d payloads x 4 tags x ((%d bases + %d single wraps) x %d sinks + %d whole-collection sinks) (inapplicable combinations counted under excluded)", len(payloads), len(baseNames), len(wrapNames), len(sinks), len(wholeSinks)), int64(len(cases)), true)
 	r.Parallel(int64(len(cases)), 0, func(i int64) { r.Check(check(r, cases[i])) })
+
+	// nests: every path of depth 1 and 2 over the 8 constructs (with and without text next to the content) x 2 leaves
+	var elems []string
+	for _, el := range nestElems {
+		elems = append(elems, el, el+"+")
+	}
+	var paths []string
+	for _, a := range elems {
+		for _, leaf := range nestLeaves {
+			paths = append(paths, "nest:"+a+","+leaf)
+			for _, b := range elems {
+				paths = append(paths, "nest:"+a+","+b+","+leaf)
+			}
+		}
+	}
+	var ncases []Case
+	for _, p := range []string{"<b>&'\"</b>", "&lt;b&gt;", ""} {
+		for _, tg := range tags {
+			for _, s := range paths {
+				ncases = append(ncases, Case{Payload: vk.Text(p), Tag: tg, Base: "var", Sink: s})
+			}
+		}
+	}
+	r.Subspace(fmt.Sprintf("nests: 3 payloads x 4 tags x %d paths (depth 1 and 2 over %d constructs, each with and without text next to its content, x 2 leaves)", len(paths), len(nestElems)), int64(len(ncases)), true)
+	r.Parallel(int64(len(ncases)), 0, func(i int64) { r.Check(check(r, ncases[i])) })
+
+	// histories: sequential, because the template cache is switched by a package variable of plush
+	var hist []History
+	seqs := [][]string{{"string", "html", "string"}, {"html", "string", "html", "string"}, {"string", "htmler", "string", "html", "string"}, {"htmler", "string"}, {"string", "string"}}
+	for _, p := range []string{"<b>&'\"</b>", "&lt;b&gt;", "plain"} {
+		for _, s := range append(append([]string{}, sinks...), wholeSinks...) {
+			for _, q := range seqs {
+				for _, cached := range []bool{false, true} {
+					hist = append(hist, History{Payload: vk.Text(p), Sink: s, Tags: q, Cached: cached})
+				}
+			}
+		}
+	}
+	r.Subspace(fmt.Sprintf("histories: 3 payloads x %d sinks x %d tag sequences x {one Template executed repeatedly, Render with the template cache on}", len(sinks)+len(wholeSinks), len(seqs)), int64(len(hist)), true)
+	for i, h := range hist {
+		if r.Mine(int64(i)) {
+			r.Check(checkHistory(r, h))
+		}
+	}
 
 	r.Rapid("compositions", r.Pick(8000, 100000), func(t *rapid.T) *vk.Fail {
 		c := Case{Payload: vk.Text(gen.Payload(t, "p")), Tag: rapid.SampledFrom(tags).Draw(t, "tag"), Sink: rapid.SampledFrom(sinks).Draw(t, "sink")}
@@ -490,9 +1024,48 @@ func TestProp(t *testing.T) {
 			}
 		}
 		n := rapid.IntRange(0, 4).Draw(t, "depth")
+		if bases[c.Base].weak {
+			n = 0
+		}
 		for i := 0; i < n; i++ {
 			c.Wraps = append(c.Wraps, rapid.SampledFrom(wok).Draw(t, "wrap"))
 		}
 		return check(r, c)
+	})
+
+	r.Rapid("nests", r.Pick(6000, 60000), func(t *rapid.T) *vk.Fail {
+		c := Case{Payload: vk.Text(gen.Payload(t, "p")), Tag: rapid.SampledFrom(tags).Draw(t, "tag")}
+		tagKey := map[string]string{"string": "s", "raw": "s", "html": "h", "htmler": "r"}[c.Tag]
+		var ok []string
+		for _, b := range baseNames {
+			if strings.Contains(bases[b].tags, tagKey) && !bases[b].weak {
+				ok = append(ok, b)
+			}
+		}
+		c.Base = rapid.SampledFrom(ok).Draw(t, "base")
+		if rapid.IntRange(0, 2).Draw(t, "wrapped") == 0 {
+			var wok []string
+			for _, w := range wrapNames {
+				if !(wraps[w].strOnly && (c.Tag == "html" || c.Tag == "htmler")) {
+					wok = append(wok, w)
+				}
+			}
+			c.Wraps = []string{rapid.SampledFrom(wok).Draw(t, "wrap")}
+		}
+		path := "nest:"
+		for i, d := 0, rapid.IntRange(1, 4).Draw(t, "depth"); i < d; i++ {
+			path += rapid.SampledFrom(elems).Draw(t, "construct") + ","
+		}
+		c.Sink = path + rapid.SampledFrom(nestLeaves).Draw(t, "leaf")
+		return check(r, c)
+	})
+
+	r.Rapid("histories", r.Pick(1500, 20000), func(t *rapid.T) *vk.Fail {
+		h := History{Payload: vk.Text(gen.Payload(t, "p")), Sink: rapid.SampledFrom(append(append([]string{}, sinks...), wholeSinks...)).Draw(t, "sink"), Cached: rapid.Bool().Draw(t, "cached")}
+		n := rapid.IntRange(2, 5).Draw(t, "n")
+		for i := 0; i < n; i++ {
+			h.Tags = append(h.Tags, rapid.SampledFrom([]string{"string", "html", "htmler"}).Draw(t, "tag"))
+		}
+		return checkHistory(r, h)
 	})
 }
